@@ -3,6 +3,7 @@ CONSTANTS
   Alphabet = {32, 9, 11, 127, 1, 97, 45, 47, 233, 12288}
   N = 3
   Kind = "line"
+  Prefixes <- PrefixesNone
   TRIM_CONTROL = TRUE
 INVARIANTS NonBlankKept CaseOnlyInName Fixpoint NoTrailingBlanks
 CHECK_DEADLOCK FALSE
